@@ -59,6 +59,18 @@ def run_impl(case):
     c2["alternatives"] = [case["alternatives"][i] for i in pr]
     c2["criteria"] = [case["criteria"][j] for j in pc]
     o2 = T.run_transform(c2)
+    # the public function behind CRITIC, given plain Python containers (a caller need not hold numpy arrays)
+    if case["tf"]["cls"] in ("CRITIC", "Critic") and "error" not in o1:
+        try:
+            from skcriteria.preprocessing.weighters import critic_weights
+            box = [list, tuple, lambda v: np.array(v), lambda v: __import__("pandas").Series(v)][len(case["matrix"]) % 4]
+            pp = case["tf"]["params"]
+            fw = critic_weights(box([box(r) for r in case["matrix"]]) if box in (list, tuple) else np.array(case["matrix"], dtype=float),
+                                box([int(o) for o in case["objectives"]]), correlation=pp.get("correlation", "pearson"),
+                                scale=pp.get("scale", True))
+            o1["function_weights"] = [float(x) for x in fw]
+        except Exception as e:  # noqa: BLE001
+            o1["function_error"] = repr(e)[:200]
     return o1, o2
 
 
@@ -180,6 +192,11 @@ def run(ctx):
             continue
         w = o1["after"]["weights"]
         m = len(w)
+        if "function_error" in o1:
+            ctx.oracle_fail(c, {"oracle": "critic_weights() raised " + o1["function_error"] + " where CRITIC succeeds"})
+        elif "function_weights" in o1 and any((a == a or b == b) and abs(a - b) > 1e-9 for a, b in zip(o1["function_weights"], w)):
+            ctx.oracle_fail(c, {"oracle": f"critic_weights() given plain containers returns {o1['function_weights']} but "
+                                          f"CRITIC gives {w} on the same data"})
         want = published(c)
         if want is None:
             # CRITIC with every criterion perfectly correlated with every other (in particular a single
